@@ -8,6 +8,7 @@ import (
 	"github.com/crate-crypto/go-ipa/bandersnatch"
 	"github.com/crate-crypto/go-ipa/bandersnatch/fr"
 	"github.com/crate-crypto/go-ipa/banderwagon"
+	"github.com/crate-crypto/go-ipa/common"
 
 	"verif/mon"
 	"verif/ref"
@@ -396,7 +397,17 @@ func (g *engine) step() {
 		op = "SetBytes(Bytes)"
 		g.log(fmt.Sprintf("e%d.SetBytes(e%d.Bytes())", d, a))
 		by := g.e[a].Bytes()
-		if err := g.e[d].SetBytes(by[:]); err != nil {
+		var err error
+		if rng.Intn(2) == 0 {
+			// the stream decoder, fed in two pieces
+			var p *banderwagon.Element
+			if p, err = common.ReadPoint(&nestReader{data: by[:], chunk: 1 + rng.Intn(31), at: -1}); err == nil {
+				g.e[d] = *p
+			}
+		} else {
+			err = g.e[d].SetBytes(by[:])
+		}
+		if err != nil {
 			g.c.Fail("decode-own-encoding", "SetBytes(P.Bytes()) failed: "+err.Error(), map[string]interface{}{"history": append([]string(nil), g.hist...)})
 			g.e[d] = ea
 		}
